@@ -257,63 +257,99 @@ class Item:
                     else None, self.inst)
 
 
-def evaluate(node, proto=None):
-    proto = dict(proto or {})
+def evaluate(node, proto=None, first=None, leak=False, trunc=False):
+    """-> (items, total). leak=True / trunc=True make the model reproduce
+    two known defects of sc3 (Pchain, Pdur; see `_evaluate`)."""
+    items, total, _ = _evaluate(node, dict(proto or {}), first,
+                                (leak, trunc))
+    return items, total
+
+
+def delta_is_int(ev):
+    """The number an event computes as its delta is a Python int."""
+    isint = lambda v: isinstance(v, int) and not isinstance(v, bool)
+    if ev.get('delta') is not None:
+        return isint(ev['delta'])
+    return isint(ev.get('dur')) and isint(ev.get('stretch'))
+
+
+def _evaluate(node, proto, first, leak):
+    """-> (items, total, ret).
+
+    `first`/`ret` exist only to reproduce, when `leak` is set, a known defect
+    of sc3 (known finding pchain_returns_inner_event): a Pchain whose outer
+    pattern ends before the inner one returns the inner pattern's already
+    fetched event instead of its input event, and the enclosing Pseq/Pn hands
+    that event to the next pattern as the input of its first event. `first`
+    is the event the node's first event is built on (None: the proto), `ret`
+    what the node returns to its parent.
+
+    With the second flag of `leak` (known finding pdur_int_delta_truncated)
+    the shortened delta of the event a Pdur cuts is converted to int when the
+    event's own delta is an int."""
+    leaking, trunc = leak
     k = node['k']
     if k in ('pbind', 'pmono'):
         items = []
         t = F(0)
         for i, vals in enumerate(node['events']):
-            ev = dict(proto)
+            ev = dict(first) if (i == 0 and first is not None) else dict(proto)
             ev.update(vals)
             items.append(Item(t, ev, node['id'], i, k == 'pmono',
                               delta_is_rest_object(ev), node['inst']))
             t += resolve_delta(ev)
-        return items, t
-    if k == 'pseq':
+        return items, t, None
+    if k in ('pseq', 'pn'):
+        kids = node['kids'] if k == 'pseq' else [node['kid']]
         items, t = [], F(0)
         for _ in range(node['rep']):
-            for kid in node['kids']:
-                its, tot = evaluate(kid, proto)
+            for kid in kids:
+                its, tot, first = _evaluate(kid, proto, first, leak)
                 items.extend(x.shifted(t) for x in its)
                 t += tot
-        return items, t
-    if k == 'pn':
-        items, t = [], F(0)
-        for _ in range(node['rep']):
-            its, tot = evaluate(node['kid'], proto)
-            items.extend(x.shifted(t) for x in its)
-            t += tot
-        return items, t
+        return items, t, first
     if k == 'pdelta':
-        its, tot = evaluate(node['kid'], proto)
         dt = fr(node['t'])
         if dt <= 0:
             dt = F(0)
-        return [x.shifted(dt) for x in its], tot + dt
+        elif first is not None:
+            dt *= fr(unrest(first.get('stretch', 1)))
+        its, tot, ret = _evaluate(node['kid'], proto, first, leak)
+        return [x.shifted(dt) for x in its], tot + dt, ret
     if k == 'ppar':
         merged = []
         total = F(0)
         for ci, kid in enumerate(node['kids']):
-            its, tot = evaluate(kid, proto)
+            its, tot, _ = _evaluate(kid, proto, first if ci == 0 else None,
+                                    leak)
             total = max(total, tot)
             for x in its:
                 y = x.shifted(0)
                 y.restdelta = None     # Ppar hands on plain numbers as deltas
                 merged.append((y.t, ci, len(merged), y))
         merged.sort(key=lambda m: (m[0], m[2]))
-        return [m[3] for m in merged], total
+        return [m[3] for m in merged], total, None
     if k == 'pchain':
-        its, tot = evaluate(node['kid'], proto)
-        return _chain(node, its, tot)
+        its, tot, _ = _evaluate(node['kid'], proto, first, leak)
+        out, total = _chain(node, its, tot)
+        ret = None
+        if leaking and len(node['over']) < len(its):
+            ret = dict(its[len(node['over'])].ev)
+        return out, total, ret
     if k == 'pdur':
-        its, tot = evaluate(node['kid'], proto)
+        its, tot, _ = _evaluate(node['kid'], proto, first, leak)
         d = fr(node['dur'])
         if tot >= d:
             # the event whose end reaches d is the last one; an event that
             # would start at or after d is not played
-            return [x for x in its if x.t < d], d
-        return its, tot
+            kept = [x for x in its if x.t < d]
+            if trunc and kept:
+                last = kept[-1]
+                if last.restdelta is not None and delta_is_int(last.ev) \
+                        and last.t + resolve_delta(last.ev) >= d:
+                    d = last.t + int(d - last.t)
+            return kept, d, None
+        return its, tot, None
     raise ValueError(k)
 
 
